@@ -6,7 +6,7 @@ open Dblib.Gen.Tds
 
 def parseField (s : String) : Option PField :=
   if s == "k" then some (.longBinary (some [1]))
-  else if s == "kb" ∨ s == "kt" ∨ s == "kw" ∨ s == "kn" ∨ s == "kh" then some (.longBinary (some [0]))   -- not a usable key
+  else if s == "kb" ∨ s == "kt" ∨ s == "kw" ∨ s == "kl" ∨ s == "kz" ∨ s == "kn" ∨ s == "kh" then some (.longBinary (some [0]))   -- not a usable key
   else if s == "e" then some (.longBinary none)
   else if s == "v" then some .other
   else if s.startsWith "b" then some .other     -- a VARBINARY value (key or nonce typed as VARBINARY): not a LONGBINARY field
@@ -26,6 +26,7 @@ def parseReply (t : String) : Option (Option Reply) :=   -- some none = not deli
     let fs := (if vs == "" then [] else vs.splitOn ",").map parseField
     if fs.all Option.isSome then some (some (.params (fs.filterMap id))) else none
   | ["cap", "ok"] => some (some (.capability false))
+  | ["cap", "okz"] => some (some (.capability false))   -- also lists a type with a zero-length mask: "not requested"
   | ["cap", "zero"] => some (some (.capability true))
   -- a reply that leaves the request or the response type out: `ReadFrom` starts from the empty default
   -- masks of `NewCapabilityPackage` (Codec.Basic.Capability.dec), so that type is all zero
